@@ -30,6 +30,8 @@
 (*   "MtxfAlways"  MTXF is always written for WotLK+ (version marker)      *)
 (*   "BmeshNotMop" version detection ignores MBMH/MBBB/MBNV/MBMI: a MoP    *)
 (*                 tile with blend mesh but no MTXP loses the blend mesh   *)
+(*   "BuilderDropsMamp" (never in the code; seeded behaviour) the rebuild   *)
+(*                 route AdtBuilder::from_parsed loses texture_amplifier   *)
 (*   "NoTruncate"  (never in the code; seeded behaviour) write_to_file      *)
 (*                 opens the destination without truncating: over a longer *)
 (*                 file the old tail survives                              *)
@@ -329,9 +331,14 @@ Parse == /\ apc = "parse" /\ adisk.round = around /\ ~ParseFails
          /\ UNCHANGED adisk /\ UNCHANGED <<aver, aopts, ank, asubs, amtxf, acur, ahdrs, atop, apos, amhdr, amcin, akix, akstart, akofs, aktab,
                         afst, awtop, awsub, around, alens>>
 \* BuiltAdt::from_root_adt(root, None) followed by to_bytes
-FromParsed == /\ apc = "rebuild"
+\* the two public load-modify-save routes: BuiltAdt::from_root_adt(root, None) ("root") and
+\* AdtBuilder::from_parsed(root).build() ("builder").  Both carry every parsed optional kind over.
+\* ("BuilderDropsMamp": never in the code; seeded behaviour -- from_parsed loses texture_amplifier)
+FromParsed(route) ==
+              /\ apc = "rebuild"
               /\ aver' = aparse.ver
-              /\ aopts' = aparse.opts \cup (IF Dev("InjectMfbo") /\ aparse.ver >= TBC THEN {"MFBO"} ELSE {})
+              /\ aopts' = (IF route = "builder" /\ Dev("BuilderDropsMamp") THEN aparse.opts \ {"MAMP"} ELSE aparse.opts)
+                           \cup (IF route = "root" /\ Dev("InjectMfbo") /\ aparse.ver >= TBC THEN {"MFBO"} ELSE {})
               /\ ank' = NMcnk /\ asubs' = aparse.subs \ {"MCVT", "MCNR", "MCLY"}
               /\ amtxf' = aparse.mtxf
               /\ around' = around + 1
@@ -340,6 +347,7 @@ FromParsed == /\ apc = "rebuild"
               /\ akix' = 0 /\ akstart' = 0 /\ akofs' = ZeroOfs /\ aktab' = << >>
               /\ afst' = CfInit(0) /\ awtop' = << >> /\ awsub' = << >>
               /\ UNCHANGED adisk /\ UNCHANGED <<aparse, alens>>
+FromParsedRoot == FromParsed("root")   FromParsedBuilder == FromParsed("builder")
 
 \* BuiltAdt::write_to_file onto a path that is absent / holds a shorter file / holds a longer file.  File::create
 \* truncates, so the file is exactly the serialised bytes whatever was there before.
@@ -356,7 +364,7 @@ Next == \/ BuildReject
         \/ OpenMcnk \/ EmitMCVT \/ EmitMCNR \/ EmitMCLY \/ EmitMCRF \/ EmitMCLQ \/ EmitMCCV \/ EmitMCRD \/ EmitMCRW \/ CloseMcnk
         \/ BackPatchMHDR \/ BackPatchMCIN
         \/ WalkLeaf \/ WalkEnter \/ WalkLeave \/ WalkDone
-        \/ ParseFail \/ Parse \/ FromParsed
+        \/ ParseFail \/ Parse \/ FromParsedRoot \/ FromParsedBuilder
         \/ WriteAbsent \/ WriteShorter \/ WriteLonger
 
 \* ============================================================================ invariants
